@@ -58,6 +58,28 @@ CHECKS["C15"] = dict(
     design_ref="6/C15",
     technique="TLA+ model (FileSystem.tla) bounded-exhaustively checked by TLC + TLC behaviours replayed through three request doors + TLC trace validation",
 )
+CHECKS["C10"] = dict(
+    category="model_checking",
+    text="RewardGraph.tla: sharing digraph, declaration order, code-shaped cycle test and evaluation order (science.py) against the declarative acyclicity and "
+    "dependencies-first requirements, same-step shared values and totals; TLC is exhaustive over all 512 digraphs on 3 agents x all declaration and neighbour orders "
+    "(thorough: all 65,536 digraphs on 4 agents x 24 orders) and refutes the evaluate-in-declaration-order variant. Every (graph, order) of that domain becomes a real "
+    "scenario of agents with integer action-penalty and shared-reward components (from_config must raise iff cyclic; accepted ones are stepped), TLC -simulate behaviours "
+    "of the generator are replayed with the model's weights, and shipped scenarios run in sticky/non-sticky variants with every reward component's calculate() wrapped; "
+    "TLC validates each episode against RewardTrace.tla (weighted sum, same-step sharing, dependencies-first order actually used, sticky memory, non-sticky return to zero, totals).",
+    design_ref="6/C10",
+    technique="TLA+ model (RewardGraph.tla) exhaustively checked by TLC + generated scenarios per model state + TLC trace validation of recorded reward episodes",
+)
+CHECKS["C19"] = dict(
+    category="model_checking",
+    text="Agents.tla: periodic agents (start window, gap window, maximum executions, fixed start node, configured action), probabilistic agents (never a probability-0 entry, "
+    "probabilities read by key) and threat-actor kill chains (stage order without skipping, failure/repeat rules, conclusion) at the level of the statement; TLC exhausts "
+    "start 0..4, start variance 0..2, frequency 1..4, variance<frequency, max 0..3, 12 ticks and TAP chains of 5/6 stages with both repeat flags (658k states, deadlock "
+    "checking on). Settings drawn from the model (tlc -simulate initial states, edge list, full mirrored enumeration in thorough) are run on a generated LAN, and all "
+    "shipped scenarios (data_manipulation, scenario_with_placeholders, uc7, uc7_tap003, uc7 attack variants) under random/mixed/passive blue policies; one trace per "
+    "scripted agent per episode (history item, action index, kill-chain stage before/after each step) is validated by TLC against AgentsTrace.tla.",
+    design_ref="6/C19",
+    technique="TLA+ model (Agents.tla) checked by TLC + TLC trace validation of every scripted agent's recorded history and kill-chain stage",
+)
 
 REASON_TODO = "check not built yet in this session (planned, see DESIGN.md 10); nothing is claimed for it"
 
